@@ -11,16 +11,26 @@
 //! whole run. A last phase scripts the entropy draws of every nonce-drawing
 //! writer and decides that each chunk and seal nonce is a function of one
 //! full 96-bit draw (see `entropy_phase`).
+//!
+//! Public derivability (`vstore::derive`): every field of every metadata
+//! document the backend receives is a size, a clock value, a constant, an
+//! entropy draw, or is recomputed by the harness from bytes the backend
+//! holds (`e` from n and the STORED ciphertext, the seal from the key path
+//! and the other fields); under a fixed clock and scripted entropy two runs
+//! that differ only in plaintext content differ only in ciphertext, tags and
+//! the fields recomputed from those; no digest of a plaintext stretch occurs
+//! anywhere in the backend.
 
 use object_store::ObjectStore;
 use serde_json::json;
-use std::collections::HashMap;
+use std::collections::{BTreeMap, HashMap};
 use std::sync::Arc;
 use vcore::ctlstore::{Content, CtlStore, Mutation, apply as apply_mutation};
 use vcore::{Run, Tier, Violation, util};
 use vstore::fix::{Wrap, build, payload};
 use vstore::hist::apply_tracked;
 use vstore::ops::{Book, Mode, Op, alphabet, applicable};
+use vstore::derive::{self, Basis, DigestNet, DocInput};
 use vstore::tamper::{chunk_nonce, get_field, harness_cipher, open_chunk_under, open_chunk_with};
 
 const WINDOW: usize = 8;
@@ -42,6 +52,14 @@ struct HistOut {
     docs: Vec<DocSeen>,
     /// scripted entropy answers still queued when the history ended
     entropy_left: usize,
+    /// every mutation the backend received, in order
+    journal: Vec<Mutation>,
+    /// metadata fields found publicly derivable, by what they derive from
+    fields_by_basis: BTreeMap<Basis, u64>,
+    /// digests of plaintext stretches searched for (each in 5 spellings)
+    digests_searched: u64,
+    /// journal length after each operation of the history
+    op_end: Vec<usize>,
 }
 
 /// The nonces one metadata document version carries.
@@ -88,6 +106,18 @@ fn run_history(wrap: Wrap, hist: &[Op], clock: u64, want_sample: bool) -> HistOu
     run_history_scripted(wrap, hist, clock, want_sample, &[])
 }
 
+/// [`run_history_scripted`] that also hands back the backend journal.
+fn run_history_journalled(wrap: Wrap, hist: &[Op], clock: u64, script: &[Vec<u8>]) -> HistOut {
+    KEEP_JOURNAL.with(|k| k.set(true));
+    let out = run_history_scripted(wrap, hist, clock, false, script);
+    KEEP_JOURNAL.with(|k| k.set(false));
+    out
+}
+
+thread_local! {
+    static KEEP_JOURNAL: std::cell::Cell<bool> = const { std::cell::Cell::new(false) };
+}
+
 /// `script`: answers for the 12-byte entropy draws of the store, in order
 /// (hook `anda_db_utils::verif::push_entropy`; an exhausted or empty script
 /// means the real generator).
@@ -102,11 +132,15 @@ fn run_history_scripted(wrap: Wrap, hist: &[Op], clock: u64, want_sample: bool, 
     let inner: Arc<dyn ObjectStore> = ctl_store.clone();
     let store = build(wrap, inner);
     let mut book = Book::default();
+    // journal length after each operation: which operation issued which mutation
+    let mut op_end: Vec<usize> = Vec::new();
     util::block_on(async {
         for op in hist {
             apply_tracked(store.as_ref(), &mut book, op).await;
+            op_end.push(ctl.journal_len());
         }
     });
+    let clock_reads = anda_db_utils::verif::peek_clock().map(|now| (now.saturating_sub(clock)) / 1000).unwrap_or(0);
     while anda_db_utils::verif::take_entropy(12).is_some() {
         out.entropy_left += 1;
     }
@@ -133,9 +167,34 @@ fn run_history_scripted(wrap: Wrap, hist: &[Op], clock: u64, want_sample: bool, 
         ),
         replay: json!({"wrap": wrap, "history": hist, "clock": clock}),
     };
+    let journal = ctl.journal();
+    // secondary net: digests of plaintext stretches, bare or salted with any
+    // nonce / generation name the backend holds, in any usual spelling
+    let mut salts: Vec<Vec<u8>> = Vec::new();
+    for e in &journal {
+        if let Mutation::Put { path, data } = &e.mutation
+            && path.starts_with("meta/")
+        {
+            for s in derive::public_salts(data) {
+                if !salts.contains(&s) {
+                    salts.push(s);
+                }
+            }
+        }
+    }
+    // (objects of tens of thousands of one-byte chunks: whole plaintext, own salts only)
+    let net = DigestNet::new(&all_plains, &salts, wrap.cs());
+    out.digests_searched = net.digests;
     // replay the journal: everything the backend ever held
     let mut content = Content::new();
-    for e in ctl.journal() {
+    for (ji, e) in journal.iter().enumerate() {
+        let writer = op_end.iter().position(|end| ji < *end).map(|i| hist[i].kind()).unwrap_or_else(|| "unknown".into());
+        let other_docs: Vec<bytes::Bytes> = match &e.mutation {
+            Mutation::Put { path, .. } if path.starts_with("meta/") => {
+                content.iter().filter(|(p, _)| p.starts_with("meta/")).map(|(_, d)| d.clone()).collect()
+            }
+            _ => vec![],
+        };
         apply_mutation(&mut content, &e.mutation);
         let (path, data) = match &e.mutation {
             Mutation::Put { path, data } => (path.clone(), data.clone()),
@@ -153,6 +212,43 @@ fn run_history_scripted(wrap: Wrap, hist: &[Op], clock: u64, want_sample: bool, 
                 out.violations.push(viol(
                     if path.starts_with("meta/") { "plaintext-in-metadata" } else { "plaintext-in-payload-object" },
                     format!("backend object {path} ({} bytes) contains {WINDOW} consecutive plaintext bytes", data.len()),
+                ));
+            }
+        }
+        if !net.is_empty() {
+            for (hay, place) in [(data.as_ref(), if path.starts_with("meta/") { "metadata" } else { "payload-object" }), (path.as_bytes(), "object-name")] {
+                if let Some(found) = net.scan(hay) {
+                    out.violations.push(viol(
+                        &format!("plaintext-digest-in-{place}/{writer}"),
+                        format!("backend object {path}: its {place} contains the {found}: a key-less verifier of plaintext guesses"),
+                    ));
+                }
+            }
+        }
+        if let Some(key) = path.strip_prefix("meta/")
+            && matches!(e.mutation, Mutation::Put { .. })
+        {
+            // public derivability: every field is a size / clock value / constant /
+            // entropy draw, or recomputable from bytes the backend holds
+            let (ok, bad) = derive::check_doc(
+                &DocInput {
+                    key,
+                    doc: &data,
+                    other_docs: &other_docs,
+                    after: &content,
+                    cs: wrap.cs(),
+                    clock: (clock, 1000, clock_reads),
+                    script: if script.is_empty() { None } else { Some(script) },
+                },
+                &cipher,
+            );
+            for (_, b) in ok {
+                *out.fields_by_basis.entry(b).or_insert(0) += 1;
+            }
+            for (field, why) in bad {
+                out.violations.push(viol(
+                    &format!("not-publicly-derivable/{field}/{writer}"),
+                    format!("field `{field}` of {path}: {why}: it is not a size, clock value, constant or entropy draw and does not follow from bytes the backend holds"),
                 ));
             }
         }
@@ -262,6 +358,10 @@ fn run_history_scripted(wrap: Wrap, hist: &[Op], clock: u64, want_sample: bool, 
                 out.chunks += 1;
             }
         }
+    }
+    if KEEP_JOURNAL.with(|k| k.get()) {
+        out.journal = journal.into_iter().map(|e| e.mutation).collect();
+        out.op_end = op_end;
     }
     // one violation per signature per history is enough
     let mut sigs = std::collections::HashSet::new();
@@ -514,6 +614,121 @@ fn entropy_phase() -> EntropyOut {
     out
 }
 
+// ---------------------------------------------------------------------------
+// public derivability under scripted entropy, and its differential form
+
+/// Every writer of metadata documents at chunk size `c`: put in three modes,
+/// multipart with EVERY split into one, two and three parts (empty parts
+/// included), copy and rename in both target modes after a put and after a
+/// multipart upload, onto an existing target, a copy of a copy, a self-copy.
+fn derivability_histories(c: u32, four_parts: bool) -> Vec<Vec<Op>> {
+    let mut sizes = vec![0, 1, c - 1, c, c + 1, 2 * c + 3, 11, 24];
+    sizes.sort();
+    sizes.dedup();
+    let put = |key: u8, size: u32, mode: Mode| Op::Put { key, size, var: 7, mode };
+    let multi = |key: u8, parts: Vec<u32>| Op::Multi { key, parts, var: 7, abort: false };
+    let mut out: Vec<Vec<Op>> = Vec::new();
+    for &size in &sizes {
+        out.push(vec![put(0, size, Mode::Overwrite)]);
+        out.push(vec![put(0, size, Mode::Create)]);
+        out.push(vec![Op::Put { key: 0, size: c + 1, var: 3, mode: Mode::Overwrite }, put(0, size, Mode::Update(vstore::ops::Tok::Latest))]);
+        out.push(vec![multi(0, vec![size])]);
+        for a in 0..=size {
+            out.push(vec![multi(0, vec![a, size - a])]);
+            for b in 0..=size - a {
+                out.push(vec![multi(0, vec![a, b, size - a - b])]);
+                if four_parts && size == 2 * c + 3 {
+                    for d in 0..=size - a - b {
+                        out.push(vec![multi(0, vec![a, b, d, size - a - b - d])]);
+                    }
+                }
+            }
+        }
+        for create in [false, true] {
+            out.push(vec![put(2, size, Mode::Overwrite), Op::Copy { from: 2, to: 0, create }]);
+            out.push(vec![put(2, size, Mode::Overwrite), Op::Rename { from: 2, to: 0, create }]);
+            out.push(vec![multi(2, vec![size / 2, size - size / 2]), Op::Copy { from: 2, to: 0, create }]);
+            out.push(vec![multi(2, vec![size / 2, size - size / 2]), Op::Rename { from: 2, to: 0, create }]);
+        }
+        out.push(vec![put(2, size, Mode::Overwrite), Op::Put { key: 0, size: 5, var: 4, mode: Mode::Overwrite }, Op::Copy { from: 2, to: 0, create: false }]);
+        out.push(vec![put(2, size, Mode::Overwrite), Op::Put { key: 0, size: 5, var: 4, mode: Mode::Overwrite }, Op::Rename { from: 2, to: 0, create: false }]);
+        out.push(vec![put(2, size, Mode::Overwrite), Op::Copy { from: 2, to: 0, create: true }, Op::Copy { from: 0, to: 1, create: true }]);
+        out.push(vec![put(0, size, Mode::Overwrite), Op::Copy { from: 0, to: 0, create: false }]);
+    }
+    out
+}
+
+/// The same history writing other bytes of the same lengths.
+fn other_content(hist: &[Op]) -> Vec<Op> {
+    hist.iter()
+        .map(|op| match op {
+            Op::Put { key, size, var, mode } => Op::Put { key: *key, size: *size, var: var.wrapping_add(100), mode: *mode },
+            Op::Multi { key, parts, var, abort } => Op::Multi { key: *key, parts: parts.clone(), var: var.wrapping_add(100), abort: *abort },
+            other => other.clone(),
+        })
+        .collect()
+}
+
+#[derive(Default)]
+struct DerivOut {
+    runs: u64,
+    docs: u64,
+    draws_consumed: u64,
+    payload_objects_with_other_bytes: u64,
+    fields_by_basis: BTreeMap<Basis, u64>,
+    digests_searched: u64,
+    violations: Vec<Violation>,
+}
+
+/// One history, run twice under the same logical clock and the same script
+/// of 12-byte entropy draws, the second time writing other bytes of the same
+/// lengths: in both runs every field of every document the backend receives
+/// must be publicly derivable (scripted draws must be found verbatim), and
+/// the two backend journals may differ only in ciphertext bytes, chunk tags
+/// and the fields recomputable from those (`e`, `at`), generation salts aside.
+fn derivability_case(wrap: Wrap, hist: &[Op]) -> DerivOut {
+    const CLOCK: u64 = 1_400_000_000_000;
+    const DRAWS: usize = 16;
+    let script: Vec<Vec<u8>> = (0..DRAWS).map(|j| (0..12usize).map(|k| (0x21 + 13 * j + k) as u8).collect()).collect();
+    let mut out = DerivOut::default();
+    let a = run_history_journalled(wrap, hist, CLOCK, &script);
+    let b = run_history_journalled(wrap, &other_content(hist), CLOCK, &script);
+    out.runs = 2;
+    let replay = json!({"derivability": {"wrap": wrap, "history": hist}});
+    let text = |t: String| format!("{}: [{}] under a fixed clock and scripted entropy: {t}", wrap.label(), hist.iter().map(|o| o.short()).collect::<Vec<_>>().join("; "));
+    if a.entropy_left == 0 || b.entropy_left == 0 {
+        vcore::report::machinery(&format!("derivability phase: history {hist:?} consumed all {DRAWS} scripted draws"));
+    }
+    if a.entropy_left != b.entropy_left {
+        out.violations.push(Violation {
+            signature: "C09/leak/plaintext-dependent/number-of-entropy-draws".into(),
+            summary: text(format!("{} vs {} draws consumed by two runs that differ only in plaintext content", DRAWS - a.entropy_left, DRAWS - b.entropy_left)),
+            replay: replay.clone(),
+        });
+    }
+    out.draws_consumed = (DRAWS - a.entropy_left) as u64;
+    let (diffs, differing) = derive::diff_journals(&a.journal, &b.journal);
+    out.payload_objects_with_other_bytes = differing;
+    for (what, idx, why) in diffs {
+        let writer = a.op_end.iter().position(|end| idx < *end).map(|i| hist[i].kind()).unwrap_or_else(|| "unknown".into());
+        out.violations.push(Violation { signature: format!("C09/leak/plaintext-dependent/{what}/{writer}"), summary: text(why), replay: replay.clone() });
+    }
+    for r in [a, b] {
+        out.docs += r.meta_docs;
+        out.digests_searched += r.digests_searched;
+        for (k, v) in r.fields_by_basis {
+            *out.fields_by_basis.entry(k).or_insert(0) += v;
+        }
+        for mut v in r.violations {
+            v.replay = replay.clone();
+            out.violations.push(v);
+        }
+    }
+    let mut sigs = std::collections::HashSet::new();
+    out.violations.retain(|v| sigs.insert(v.signature.clone()));
+    out
+}
+
 fn leak_alphabet(cs: u64) -> Vec<Op> {
     let mut full = alphabet(cs, true);
     // payloads long enough to have 8-byte windows at every chunk size
@@ -541,6 +756,17 @@ fn main() {
             }
             run.finish();
         }
+        if let Some(d) = r.get("derivability") {
+            let wrap: Wrap = serde_json::from_value(d["wrap"].clone()).expect("wrap");
+            let hist: Vec<Op> = serde_json::from_value(d["history"].clone()).expect("history");
+            let out = derivability_case(wrap, &hist);
+            run.add("evaluations", out.docs);
+            for v in out.violations {
+                println!("  -> {}", v.summary);
+                run.violation(v);
+            }
+            run.finish();
+        }
         let wrap: Wrap = serde_json::from_value(r["wrap"].clone()).expect("wrap");
         let hist: Vec<Op> = serde_json::from_value(r["history"].clone()).expect("history");
         let out = run_history(wrap, &hist, r["clock"].as_u64().unwrap_or(1_700_000_000_000), true);
@@ -550,6 +776,38 @@ fn main() {
             run.violation(v);
         }
         run.finish();
+    }
+    let threads = util::n_threads();
+    let mut fields_by_basis: BTreeMap<Basis, u64> = BTreeMap::new();
+    // public derivability of every field under scripted entropy + differential form
+    {
+        let mut work: Vec<(Wrap, Vec<Op>)> = Vec::new();
+        let css: &[u32] = match run.tier {
+            Tier::Quick => &[1, 7, 16],
+            Tier::Thorough => &[1, 2, 5, 7, 16, 33],
+        };
+        for &c in css {
+            for h in derivability_histories(c, run.tier == Tier::Thorough && c <= 7) {
+                work.push((Wrap::Enc(c as u64), h));
+            }
+        }
+        run.set("derivability_histories", json!(work.len()));
+        let outs: Vec<DerivOut> = util::par_map(work, threads, |(wrap, h)| derivability_case(wrap, &h));
+        for o in outs {
+            run.add("evaluations", o.docs);
+            run.add("derivability_runs_under_scripted_entropy", o.runs);
+            run.add("derivability_documents_checked", o.docs);
+            run.add("derivability_scripted_draws_consumed", o.draws_consumed);
+            run.add("differential_pairs", 1);
+            run.add("differential_payload_objects_with_other_bytes", o.payload_objects_with_other_bytes);
+            run.add("plaintext_digests_searched", o.digests_searched);
+            for (k, v) in o.fields_by_basis {
+                *fields_by_basis.entry(k).or_insert(0) += v;
+            }
+            for v in o.violations {
+                run.violation(v);
+            }
+        }
     }
     let cfgs: Vec<(Wrap, usize)> = match run.tier {
         Tier::Quick => vec![(Wrap::Enc(1), 2), (Wrap::Enc(7), 2), (Wrap::Enc(16), 2)],
@@ -577,7 +835,6 @@ fn main() {
         }
     }
     let alphas: Vec<Vec<Op>> = cfgs.iter().map(|(w, _)| leak_alphabet(w.cs())).collect();
-    let threads = util::n_threads();
     let mut all_nonces: Vec<(u128, u64)> = Vec::new();
     let mut seal_nonces: Vec<u128> = Vec::new();
     let total = items.len();
@@ -631,6 +888,10 @@ fn main() {
                 run.add("metadata_documents_decoded", o.meta_docs);
                 run.add("chunk_nonces_derived", o.chunks);
                 run.add("chunks_opened_with_harness_cipher_under_derived_nonce", o.chunks_opened);
+                run.add("plaintext_digests_searched", o.digests_searched);
+                for (k, v) in &o.fields_by_basis {
+                    *fields_by_basis.entry(*k).or_insert(0) += v;
+                }
                 if let Some(s) = o.sample
                     && o.windows_checked > 0
                     && o.chunks > 1
@@ -670,6 +931,10 @@ fn main() {
             run.add("metadata_documents_decoded", o.meta_docs);
             run.add("chunk_nonces_derived", o.chunks);
             run.add("chunks_opened_with_harness_cipher_under_derived_nonce", o.chunks_opened);
+            run.add("plaintext_digests_searched", o.digests_searched);
+            for (k, v) in &o.fields_by_basis {
+                *fields_by_basis.entry(*k).or_insert(0) += v;
+            }
             if let Some(s) = o.sample {
                 run.sample(s);
             }
@@ -730,16 +995,25 @@ fn main() {
     let n_seal = seal_nonces.len();
     seal_nonces.sort_unstable();
     seal_nonces.dedup();
+    run.set(
+        "metadata_fields_publicly_derivable_by_basis",
+        json!(fields_by_basis.iter().map(|(k, v)| (format!("{k:?}"), *v)).collect::<BTreeMap<_, _>>()),
+    );
     run.set("distinct_chunk_nonces", json!(distinct_nonces));
     run.set("chunk_nonces_used_for_two_different_chunks", json!(reused));
     run.set("metadata_seal_nonces", json!({"collected": n_seal, "distinct": seal_nonces.len(), "note": "in the same set as the chunk nonces"}));
     run.rule(
-        "histories = CORE* . FULL+ over keys {a, a/b, c} (C07's alphabet plus 8/24/40-byte puts and a 25-byte three-part upload), EncryptedStore over a journalling backend; \
+        "public derivability = every field of every metadata document version the backend receives (all histories below) is classified: s = length of the stored ciphertext; e = base64url(SHA3-256(n || STORED ciphertext)) for writers of ciphertext, base64url(SHA3-256(g || e of a document the backend holds)) for copies / renames; o, v null; c, av the configured constants; t one 16-byte tag per stored chunk (each chunk opened by the harness); at = GMAC by the harness' own cipher under nonce an over the v1 metadata AAD of the key path and the document's other fields; g = <logical clock value>-<salt> naming a stored object; m a logical clock value; n, an 12 bytes (under a script: verbatim one of the scripted draws, or the copied source's n); any other field, or a value that does not follow, is a violation; \
+         scripted + differential form: chunk sizes {1, 7, 16} (thorough + 2, 5, 33), sizes {0, 1, cs-1, cs, cs+1, 2cs+3, 11, 24}: put Overwrite / Create / Update, multipart with EVERY split into 1, 2 and 3 parts incl. empty parts (thorough: 4 parts at the largest size), copy and rename in both target modes after put and after multipart, onto an existing target, copy of a copy, self-copy - each history run twice under the same logical clock and the same 16 scripted entropy draws, the second time writing other bytes of the same lengths: the two backend journals must have the same mutations on the same paths (generation salts masked) with the same lengths, and documents may differ only in e, t, at (each recomputed from ciphertext / tags above); \
+         digest net: SHA3-256 and SHA-256 of every written plaintext of >= 8 bytes, whole and per chunk (chunks >= 8 bytes), bare and prefixed by every n / an / g the backend holds (per chunk also n + index), searched raw, in hex (both cases), base64url and base64 in every object version and object name the backend received; \
+         histories = CORE* . FULL+ over keys {a, a/b, c} (C07's alphabet plus 8/24/40-byte puts and a 25-byte three-part upload), EncryptedStore over a journalling backend; \
          every object version the backend ever received is scanned for every 8-byte window of every plaintext of the history; every metadata document written is decoded and the nonce of each chunk re-derived as n[0..4] || LE64(LE64(n[4..12]) + index), and the chunk is opened with the harness' own AES-256-GCM instance under that nonce and the documented chunk AAD (so the derived nonce is the one really used) and must yield bytes the history wrote at that offset; \
          the seal nonce `an` of every metadata document version joins the same set (identified by path + document without its tag); one nonce set for the whole run (one encryption key), a repeat is a violation unless it is the very same message (the same ciphertext chunk and tag, as in copies); plus 14 single objects of 255 / 256 / 257 / 65,535 / 65,536 / 65,537 / 70,000 chunks at chunk size 1 (put, and multipart split inside the object) for the width of the chunk counter; distinct = distinct chunk nonces (capped at 200000 in the evidence counter); \
          entropy use: for every nonce-drawing writer (put in Overwrite / Create / Update mode, multipart upload, and the seal of put / multipart / copy / rename; one- and three-chunk objects at chunk size 16) every 12-byte entropy draw is scripted, under two fillers (low bytes; counter bytes all ones so the chunk counter wraps inside the object): the same script twice must give the same chunk base nonce and seal nonce in every metadata document the backend received (a nonce that still varies is not a function of 96-bit draws), each of the 96 bits of each draw flipped alone must change some nonce, every nonce must be changed by at least 96 script bits, and two commits whose draws differ only in the top bit of one byte must have disjoint chunk-nonce sets",
     );
     run.assume("the OS random generator behind rand::rng() does not repeat 96-bit values (real collision probability is not checked); the entropy-use enumeration shows that every chunk and seal nonce is a function of one full 96-bit draw, which is what makes that assumption sufficient");
+    run.assume("the generation salt (8 hex digits of g, drawn outside the scripted hook) is not judged: it differs between any two runs; everything derived from g (copy tokens, the seal) is recomputed from the stored g");
+    run.assume("the v1 metadata AAD layout used to recompute `at` is transcribed from the persistent format (domain string, length-prefixed path, s, e, o, v, n, c, av, tags, .g, .m)");
     run.assume("plaintexts are high-entropy (an accidental 8-byte match with ciphertext has probability 2^-64 per position)");
     run.finish();
 }
